@@ -880,7 +880,16 @@ impl NewCase {
         }
         self.account_faults(&o, &mut rep);
         self.judge(&o, &mut rep, engine);
-        if engine == "E2" && rep.violations.iter().any(|v| v.property == "C17") {
+        // A deadlock verdict of shuttle — no task can run while the main task is blocked — is a fact
+        // about the modelled primitives and is trusted as it stands (an atomics-level interleaving that
+        // E3 has no scheduling point for can be the only way into it: `seeded/r3b-1`), unless the run
+        // used a timed Condvar wait, which shuttle never lets time out. Panics, aborts and
+        // no-progress/step-budget hangs need confirmation (see below).
+        let needs_confirmation = |v: &crate::framework::Violation| {
+            v.property == "C17"
+                && !(v.clause == "hang" && v.fingerprint == "new|deadlock" && !o.e2.as_ref().map(|h| h.timed_wait_used).unwrap_or(false))
+        };
+        if engine == "E2" && rep.violations.iter().any(needs_confirmation) {
             // E2 is a model, and a panic or a hang seen in it can be an artefact of the model:
             //  * all shuttle tasks share one OS thread, hence one set of real thread-locals — state
             //    kept per thread outside the seam (a thread_local! RefCell in the library, say) is
@@ -894,7 +903,7 @@ impl NewCase {
             let mut want: Vec<&str> = rep
                 .violations
                 .iter()
-                .filter(|v| v.property == "C17")
+                .filter(|v| needs_confirmation(v))
                 .map(|v| if v.clause == "hang" { "hang" } else { "crash" })
                 .collect();
             want.dedup();
